@@ -190,12 +190,7 @@ func (i Int8) ExponentiateInt8(other Int8) Int8 {
 	if other <= 0 {
 		return 1
 	}
-	result := i
-	var j Int8
-	for j = 2; j <= other; j++ {
-		result *= i
-	}
-	return result
+	return StrictIntExponentiate(i, other)
 }
 
 func (i Int8) Subtract(other Value) (Int8, Value) {
